@@ -5,6 +5,9 @@
 import DnsModel.Dump
 import DnsModel.Script
 import DnsModel.Synth
+import DnsModel.Steps
+import DnsModel.CAbi
+import DnsModel.Threads
 namespace Dns
 
 /-- cursor script: `set n`, `inc n`, `rdlen`, `ednsrdlen` — one result per step, then the offset -/
@@ -79,7 +82,81 @@ def runScriptLine (init : String) (ws : List String) : String :=
     String.intercalate " ; " (runScript st (ops.filterMap id) [])
   | some r => "noparse " ++ fmtRes (fun _ => "") r
 
-def dispatchWords : List String → String
+def parseCAction : List String → Option CAction
+  | ["name"] => some .name
+  | ["type"] => some .rrType
+  | ["class"] => some .rrClass
+  | ["ttl"] => some .ttl
+  | ["setttl", n] => n.toNat?.map (fun n => .setTtl (n % 4294967296))
+  | ["ip"] => some .ip
+  | ["setip", h] => (parseHex h).map .setIp
+  | ["setrawname", h] => (parseHex h).map .setRawName
+  | ["setname", h, z] => (parseHex h).map (fun t => .setName t (if z == "." then none else parseHex z))
+  | ["delete"] => some .delete
+  | ["delete2"] => some .delete2
+  | ["none"] => some .nothing
+  | _ => none
+
+def parseCOp : List String → Option COp
+  | ["flags"] => some .flags
+  | ["setflags", n] => n.toNat?.map (fun n => .setFlags (n % 4294967296))
+  | ["rcode"] => some .rcode
+  | ["setrcode", n] => n.toNat?.map (fun n => .setRcode (n % 256))
+  | ["opcode"] => some .opcode
+  | ["setopcode", n] => n.toNat?.map (fun n => .setOpcode (n % 256))
+  | "iter" :: t :: k :: act =>
+    match secOfTag t, k.toNat?, parseCAction act with
+    | some (s, _), some k, some a => some (.iter s k a)
+    | _, _, _ => none
+  | ["addq", h] => (parseHex h).map (.add .question)
+  | ["adda", h] => (parseHex h).map (.add .answer)
+  | ["addn", h] => (parseHex h).map (.add .nameServers)
+  | ["addr", h] => (parseHex h).map (.add .additional)
+  | ["rawpacket", n] => n.toNat?.map .rawPacket
+  | ["question"] => some .question
+  | ["rename", t, s, sfx] =>
+    match parseHex t, parseHex s with
+    | some t, some s => some (.rename t s (sfx == "1"))
+    | _, _ => none
+  | ["name2raw", h] => (parseHex h).map .name2raw
+  | ["abi"] => some .abi
+  | _ => none
+
+def runCabiLine (init : String) (ws : List String) : String :=
+  match parseHex init with
+  | none => "bad-init"
+  | some p =>
+    match parsePP p with
+    | .ok pp =>
+      let ops := (splitOps ws).map parseCOp
+      if ops.any Option.isNone then "bad-op" else
+      String.intercalate " ; " (runCabi pp (ops.filterMap id) [])
+    | r => "noparse " ++ fmtRes (fun _ => "") r
+
+def parseTStep (w : String) : Option TStep :=
+  let ds := w.toList.takeWhile Char.isDigit
+  let rest := w.toList.drop ds.length
+  match (String.ofList ds).toNat?, rest with
+  | some t, 'f' :: m => ((String.ofList m).toNat?).map (fun m => .fail t m)
+  | some t, ['r'] => some (.read t)
+  | _, _ => none
+
+def runErrslots (ws : List String) : String :=
+  let steps := ws.map parseTStep
+  if steps.any Option.isNone then "bad-op" else
+  let steps := steps.filterMap id
+  let rec go (s : Slots) : List TStep → List String → List String
+    | [], acc => acc.reverse
+    | st :: rest, acc =>
+      let (s', o) := tstep s st
+      let txt := match st, o with
+        | .fail t _, _ => s!"t{t}f=-1"
+        | .read t, some (some m) => s!"t{t}={m}"
+        | .read t, _ => s!"t{t}=none"
+      go s' rest (txt :: acc)
+  String.intercalate " " (go Slots.init steps [])
+
+partial def dispatchWords : List String → String
   | ["parse", h] =>
     match parseHex h with
     | some p => fmtRes fmtView (parse p)
@@ -117,6 +194,13 @@ def dispatchWords : List String → String
         | r => "noparse " ++ fmtRes (fun _ => "") r)
     | _, _, _ => "bad-hex"
   | "script" :: init :: ws => runScriptLine init ws
+  | "errslots" :: _n :: ws => runErrslots ws
+  | "session" :: ws =>
+    let cases := (ws.foldr (fun w (acc : List (List String)) =>
+      if w == "|" then [] :: acc else match acc with | [] => [[w]] | h :: t => (w :: h) :: t) [[]]).filter (· ≠ [])
+    "seq=ok conc=ok || " ++ String.intercalate " || " (cases.map dispatchWords)
+  | "cabi" :: init :: ws => runCabiLine init ws
+  | "cabic" :: init :: ws => let t := runCabiLine init ws; t ++ " @@ " ++ t
   | ["synth", h] =>
     match parseHex h with
     | some t => fmtRes toHex (synth t)
@@ -143,6 +227,10 @@ def dispatchWords : List String → String
           | none => "")
         | _ => ""
       fmtRes toHex first ++ rt
+    | none => "bad-hex"
+  | ["steps", h] =>
+    match parseHex h with
+    | some p => let r := parseI p; s!"{(fmtRes (fun _ => "") r.res).trimAscii.toString} steps={r.steps}"
     | none => "bad-hex"
   | ["iter", h] =>
     match parseHex h with
